@@ -113,6 +113,7 @@ def select(ctx, vecs):
 
 def go_vec(v):
     g = {k: v[k] for k in ("id", "fr", "hu", "pat", "sub", "sp", "m", "ct", "b", "ck", "ba", "to", "exp")}
+    g["decl"] = v.get("decl", "")
     if v.get("viol") or v.get("w"):
         g["w"] = True      # the harness reports what it observed for this vector
     return g
@@ -314,7 +315,10 @@ def run(ctx):
         reported.add(pat)
 
     # the most telling disagreements first: a handler that ran, canonical path, plain request
-    reproduced.sort(key=lambda r: (r["possible"] != ["handler"], r["vec"]["sp"] != "canonical", r["vec"]["ck"] != "none",
+    reproduced.sort(key=lambda r: (r["possible"] != ["handler"],
+                                   not (r["vec"].get("decl") in ("POST", "PUT", "DELETE") and r["vec"]["ct"] == "form" and r["vec"]["b"]
+                                        and r["vec"]["exp"] in (["m405"], ["c415"])),
+                                   r["vec"]["sp"] != "canonical", r["vec"]["ck"] != "none",
                                    r["vec"]["ba"] != "none", r["vec"]["m"] != "GET", r["vec"]["id"]))
     for r in reproduced:
         if r["vec"]["pat"] in reported:
